@@ -185,6 +185,7 @@ func doFlatten(req *wproto.Request, resp *wproto.Response) {
 		return
 	}
 	if req.Probe {
+		faultK = 0
 		for _, sr := range an.AllDefinitions() {
 			sr := sr
 			p := guard("Schema("+sr.Ref.String()+")", func() {
@@ -198,6 +199,9 @@ func doFlatten(req *wproto.Request, resp *wproto.Response) {
 			}
 		}
 	}
+	// the load counter, the trace and the fault plan concern the Flatten call only
+	loads, loadTrace = 0, nil
+	faultK, faultSticky, faultDoc, faultHits = req.FaultK, req.FaultSticky, "", 0
 	var err error
 	o := req.Opts
 	resp.Panic = guard("Flatten", func() {
